@@ -84,6 +84,44 @@ def linear_forms():
     add("(A@u)[0]-lin", ("velem", ("matvec", [[S("k0"), 2.0, 0.0], [1.0, S("k1"), -1.0]], v), 1))
     add("sum(Mv)", ("vsum", ("matvec", [[S("k0"), 2.0, 0.0], [1.0, S("k1"), -1.0]], v)))
     add("v[0]+2*v[2]", ("bin", "+", ("velem", v, 0), ("bin", "*", ("num", 2.0), ("velem", v, 2))))
+    # degree <= 1 through less common routes: powers / quotients of CONSTANT sub-expressions, dot products with
+    # constant vectors, sums of vector expressions, matrix sums
+    c1, c2 = ("const", S("c1")), ("const", S("c2"))
+    add("x+c1**3", ("bin", "+", X, ("bin", "**", c1, ("const", 3))))
+    add("(c1+1)**2*z", ("bin", "*", ("bin", "**", ("bin", "+", c1, ("num", 1.0)), ("const", 2)), Z))
+    add("x*c1**2+c2**2", ("bin", "+", ("bin", "*", X, ("bin", "**", c1, ("const", 2))), ("bin", "**", c2, ("const", 2))))
+    add("x/(c1+c2)", ("bin", "/", X, ("bin", "+", c1, c2)))
+    add("(x+c0)/(c1*c2)", ("bin", "/", ("bin", "+", X, ("num", S("c0"))), ("bin", "*", c1, c2)))
+    add("(c1/c2)*x", ("bin", "*", ("bin", "/", c1, c2), X))
+    add("-(c1)*x", ("bin", "*", ("un", "neg", c1), X))
+    add("v.consts", ("dot", v, ("vexpr", [("const", S("k0")), ("const", 2.0), ("const", S("k2"))])))
+    add("consts.v", ("dot", ("vexpr", [("const", S("k0")), ("const", 2.0), ("const", S("k2"))]), v))
+    add("sum(v*c1)", ("vsum", ("vbin", "*", v, ("sc", S("c1")))))
+    add("sum(v+w)", ("vsum", ("vbin", "+", v, ("vec", "w", 3))))
+    add("sum(c0-v)", ("vsum", ("vrbin", "-", ("sc", S("c0")), v)))
+    add("sum(-v)", ("vsum", ("vneg", v)))
+    add("sum(v/c1)", ("vsum", ("vbin", "/", v, ("sc", S("c1")))))
+    add("(2v)[1]+c0", ("bin", "+", ("velem", ("vbin", "*", v, ("sc", 2.0)), 1), ("num", S("c0"))))
+    add("sum(A)", ("msum", M))
+    add("sum(A*c1+c0)", ("msum", ("mbin", "+", ("mbin", "*", M, ("sc", S("c1"))), ("sc", S("c0")))))
+    add("sum(S)", ("msum", ("mat", "S", 2, 2, True)))
+    add("sum(A.T-A2)", ("msum", ("mbin", "-", ("mT", M), ("arr2", [[S("k0"), 1.0], [2.0, S("k1")]]))))
+    add("sum(S[0:2,0:1])", ("msum", ("mslice", ("mat", "S", 2, 2, True), (0, 2, None), (0, 1, None))))
+    # coefficient arrays of other NumPy dtypes (unsigned / signed integers, float32)
+    add("u8@v", ("lincomb", [3.0, 1.0, 2.0], v, "uint8"))
+    add("u8@v-c0", ("bin", "-", ("lincomb", [3.0, 0.0, 2.0], v, "uint16"), ("const", S("c0"))))
+    add("i64@v", ("lincomb", [3.0, -1.0, 2.0], v, "int64"))
+    add("f32@v", ("lincomb", [0.5, -1.0, 2.0], v, "float32"))
+    add("c0-sum(v)", ("bin", "-", ("num", S("c0")), ("vsum", v)))
+    add("c0-c@v", ("bin", "-", ("const", S("c0")), ("lincomb", [S("k0"), S("k1"), S("k2")], v)))
+    add("c0+sum(v)", ("bin", "+", ("num", S("c0")), ("vsum", v)))
+    add("c1*(c0-sum(v))", ("bin", "*", ("const", S("c1")), ("bin", "-", ("num", S("c0")), ("vsum", v))))
+    add("sum(v**1)", ("vsum", ("vpow", v, 1)))
+    add("sum(v**1)-c0", ("bin", "-", ("vsum", ("vpow", v, 1)), ("const", S("c0"))))
+    add("c1*sum(v[0:2]**1)+x", ("bin", "+", ("bin", "*", c1, ("vsum", ("vpow", ("slice", v, 0, 2, None), 1))), X))
+    add("sum(v**0)+x", ("bin", "+", ("vsum", ("vpow", v, 0)), X))
+    add("0*x+z", ("bin", "+", ("bin", "*", ("num", 0.0), X), Z))
+    add("x-x+z", ("bin", "+", ("bin", "-", X, X), Z))
     return F
 
 
@@ -301,12 +339,18 @@ def solve_models(tier="quick"):
     add("nlp-vec", ("bin", "+", ("vsum", ("vpow", v2, 2)), ("const", S("c0"))), "min", [("ge", ("vsum", v2), ("num", S("r0")))], bx)
     add("nlp-dot", ("dot", v2, v2), "max", [("le", ("lincomb", [S("k0"), 1.0], v2), ("num", S("r0")))], nb)
     add("nlp-quadform", ("quad", v2, [[2.0, S("q")], [0.0, 1.0]]), "min", [("eq", ("vsum", v2), ("num", 1.0))], bx)
+    # two different constraints that PRINT alike (vector nodes abbreviate their repr) with the same right-hand side
+    add("nlp-twin-rows", ("vsum", ("vpow", v2, 2)), "min", [("le", ("lincomb", [1.0, S("k0")], v2), ("num", S("r0"))), ("le", ("lincomb", [S("k1"), 1.0], v2), ("num", S("r0")))], nb)
+    # bounds given as NumPy scalars of several types and as Python ints
+    npb = {"x": (("np", "int64", 0), ("np", "int32", 2)), "y": (("np", "float32", -1.0), ("py", "int", 3))}
+    add("nlp-npbounds", quad, "min", [("ge", ("bin", "+", X, Y), ("num", S("r0")))], npb)
     add("nlp-param", ("bin", "+", ("bin", "*", ("param", "p"), X), sq(X)), "min", [("le", X, ("param", "p2"))], bx)
     add("nlp-con-nonlinear", ("bin", "+", X, Y), "min", [("le", ("bin", "+", sq(X), sq(Y)), ("num", S("r0")))], bx)
     add("nlp-matrix", ("fro", ("mat", "A", 2, 2)), "min", [("ge", ("trace", ("mat", "A", 2, 2)), ("num", S("r0")))], {"A": (S("lA"), None)})
     # --- linear models (LP route on auto)
     lin = ("bin", "+", ("bin", "+", ("bin", "*", ("const", S("c1")), X), ("bin", "*", ("num", S("c2")), Y)), ("num", S("c0")))
     add("lp0", lin, "min", [], bx)
+    add("lp-npbounds", lin, "max", [("le", ("bin", "+", X, Y), ("num", S("r0")))], npb)
     add("lp1-ge", lin, "min", [("ge", ("bin", "+", X, Y), ("num", S("r0")))], bx)
     add("lp1-le-max", lin, "max", [("le", ("bin", "+", X, Y), ("num", S("r0")))], bx)
     add("lp2-eq", lin, "min", [("eq", ("bin", "-", X, Y), ("num", S("r0"))), ("ge", X, ("num", S("r1")))], nb)
@@ -319,6 +363,9 @@ def solve_models(tier="quick"):
     # top-level objective nodes that carry a constant inside a vector expression
     add("lp-lincomb-shift", ("lincomb", [S("k0"), S("k1")], ("vbin", "-", v2, ("arr", [S("c0"), 1.0]))), "min", [("ge", ("vsum", v2), ("num", S("r0")))], bx)
     add("lp-vsum-shift-max", ("vsum", ("vbin", "+", ("vbin", "*", v2, ("sc", 2.0)), ("sc", S("c0")))), "max", [("le", ("lincomb", [1.0, S("k1")], v2), ("num", S("r0")))], bx)
+    # the constant written first (reflected subtraction) over a vector that covers all variables
+    add("lp-const-minus-sum", ("bin", "-", ("num", S("c0")), ("vsum", v2)), "min", [("ge", ("bin", "-", ("num", S("r0")), ("lincomb", [S("k0"), 1.0], v2)), ("num", 0.0))], bx)
+    add("lp-const-minus-lincomb-max", ("bin", "-", ("const", S("c0")), ("lincomb", [S("k0"), S("k1")], v2)), "max", [("le", ("vsum", v2), ("num", S("r0")))], bx)
     add("lp-mixed", ("bin", "+", ("vsum", v2), X), "min", [("ge", ("bin", "+", ("velem", v2, 1), X), ("num", S("r0")))], bx)
     if tier == "thorough":
         v3 = ("vec", "v", 3)
